@@ -18,7 +18,7 @@ from .common import L
 
 ID = "C08"
 RUNS = {"quick": 14_000, "thorough": 280_000}
-BUDGET_S = {"quick": 60, "thorough": 800}
+BUDGET_S = {"quick": 120, "thorough": 800}
 CHUNK = 120
 RULE = ("each run parses a generated domain (or, 1 run in 25, a domain file shipped under /repo/tests), exports it with "
         "DomainExporter.export_domain under a tape-drawn fault plan (ack / ENOSPC or EIO after k bytes / crash after k "
@@ -324,6 +324,7 @@ def run(ctx):
         label = src.split("/tests/")[-1]
     else:
         feat = C.draw_features(ctx)
+        feat["tiny_offsets"] = False  # the exporters print constants with 4 decimals (their stated precision)
         feat["cond_numeric"] = cfg.chance(1, 3)
         ctx.profile = "simplified-conditions" if feat["cond_numeric"] else "clean"
         nested = cfg.draw(6)
